@@ -110,19 +110,13 @@ Proof. vm_compute. reflexivity. Qed.
 Example ex_names_short : ssn_names novar (lit "x") = [] /\ ssn_names novar (lit "|x|") = [].
 Proof. vm_compute. split; reflexivity. Qed.
 
-(* Boundary of [ssn_symbol_wf]: the liberal atoms of ddSMT's scanner (a quote or
-   a bar after the first character) are well-formed leaves whose candidates
-   need not be: an unterminated string, a lone bar. *)
-Example ex_names_liberal_quote :
-  leaf_ok (lit "a""b") = true /\
-  ssn_names novar (lit "a""b") = [lit "a"""; lit """b"] /\
-  leaf_ok (lit """b") = false.
-Proof. vm_compute. repeat split; reflexivity. Qed.
-
-Example ex_names_liberal_bar :
-  leaf_ok (lit "a|") = true /\
-  ssn_names novar (lit "a|") = [lit "a"; lit "|"] /\
-  leaf_ok (lit "|") = false.
+(* The liberal atoms of ddSMT's earlier scanner (a quote or a bar after the first
+   character) are no leaves any more (fix F41: an atom ends before a quote or a bar),
+   so the earlier boundary of [ssn_symbol_wf] -- a well-formed liberal atom whose
+   candidates are an unterminated string or a lone bar -- has disappeared. *)
+Example ex_names_no_liberal :
+  leaf_ok (lit "a""b") = false /\ leaf_ok (lit "a|") = false /\
+  leaf_ok (lit "a""b""") = false /\ leaf_ok (lit "a|b|") = false.
 Proof. vm_compute. repeat split; reflexivity. Qed.
 
 (* a string literal is not a piped name: its candidates are cut as for a plain name *)
@@ -130,3 +124,9 @@ Example ex_names_strlit :
   ssn_names novar (lit """ab""") = [lit """a"; lit """ab"; lit "ab"""] /\
   leaf_ok (lit """a") = false.
 Proof. vm_compute. split; reflexivity. Qed.
+
+(* neither is a comment leaf: its candidates lose the semicolon or the line break *)
+Example ex_names_comment :
+  ssn_names novar [cSEMI; 97%N; 98%N; cLF] = [[cSEMI; 97%N]; [cSEMI; 97%N; 98%N]; [97%N; 98%N; cLF]] /\
+  leaf_ok [cSEMI; 97%N] = false /\ leaf_ok [97%N; 98%N; cLF] = false.
+Proof. vm_compute. repeat split; reflexivity. Qed.
